@@ -14,7 +14,8 @@ Mechanism in the code: when the event loop ends by a quit, Run writes the final 
 cursor line (EL2) and carriage return (the order of these calls is pinned by the bridge facts
 of `Tea/Props/Bridge/C07.lean`).  The theorems connect the renderer model
 (`Tea/Render/Model.lean`) with the terminal model (`Tea/VT/Term.lean`), with the vocabulary of
-C06 (`Tea/Props/C06.lean`): `InlineInv r t`, `viewTop r t`, `b.row w R`, `padLine w l`.
+C06 (`Tea/Props/C06.lean`): `InlineInv r t`, `viewTop r t`, `b.row w R`,
+`padLine w (Ansi.visible l)` (what a row shows of line `l`: its visible part, cut and padded).
 
 What "newline-terminated line" means here: the frame `frameLines (write r s)` is
 `strings.Split(view, "\n")` cut to the last `height` lines; all of its lines but the last are
@@ -68,8 +69,8 @@ invariant of C06 and no printed lines are queued, then after Run's final `write 
 (flush, EL2, CR), with `ls` the frame of `s` (`n` lines, `1 ≤ n ≤ h`) and `R0 = viewTop r t` the
 tape row where the view starts (unchanged):
 
-(a) every newline-terminated line is in place: for `i + 1 < n`, row `R0 + i` shows `ls[i]` cut at
-    the width and padded with blanks;
+(a) every newline-terminated line is in place: for `i + 1 < n`, row `R0 + i` shows `ls[i]` (its
+    visible part: escape sequences take no cell) cut at the width and padded with blanks;
 (b) the cursor is on row `R0 + n - 1` - the line after the `n - 1` terminated lines - in
     column 0 with no pending wrap;
 (c) that row is blank (EL2 erased the unterminated last line, if there was one);
@@ -80,7 +81,7 @@ theorem C07_quit_inline (r : RState) (t : Term) (hinv : InlineInv r t) (hq : r.q
     (s : Bytes) (t' : Term) (ht' : t' = applyOps t (stop (write r s)).2) :
     1 ≤ (frameLines (write r s)).length ∧ (frameLines (write r s)).length ≤ t.h ∧
     (∀ i l, i + 1 < (frameLines (write r s)).length → (frameLines (write r s))[i]? = some l →
-      t'.main.row t.w (viewTop r t + i) = padLine t.w l) ∧
+      t'.main.row t.w (viewTop r t + i) = padLine t.w (Ansi.visible l)) ∧
     t'.main.cr + 1 = viewTop r t + (frameLines (write r s)).length ∧
     t'.main.cc = 0 ∧ t'.main.pw = false ∧
     t'.main.row t.w t'.main.cr = List.replicate t.w 32 ∧
@@ -133,7 +134,7 @@ theorem C07_quit_inline_terminated (r : RState) (t : Term) (hinv : InlineInv r t
     splitLines (v ++ [10]) = splitLines v ++ [[]] ∧
     (frameLines (write r (v ++ [10]))).getLast? = some [] ∧
     (∀ i l, (frameLines (write r (v ++ [10])))[i]? = some l →
-      t'.main.row t.w (viewTop r t + i) = padLine t.w l) ∧
+      t'.main.row t.w (viewTop r t + i) = padLine t.w (Ansi.visible l)) ∧
     t'.main.cr + 1 = viewTop r t + (frameLines (write r (v ++ [10]))).length ∧
     t'.main.cc = 0 ∧ t'.main.pw = false := by
   obtain ⟨c1, _, c3, c4, c5, c6, c7, _⟩ := C07_quit_inline r t hinv hq (v ++ [10]) t' ht'
@@ -152,7 +153,7 @@ theorem C07_quit_inline_terminated (r : RState) (t : Term) (hinv : InlineInv r t
     cases hlast
     have hrow : viewTop r t + i = t'.main.cr := by omega
     rw [hrow, c7]
-    simp [padLine]
+    simp [padLine, Ansi.visible, Ansi.visibleFrom]
 
 /-! ### 3. no later view is replaced by an earlier one -/
 
@@ -198,7 +199,7 @@ theorem C07_no_regress (r : RState) (t : Term) (hinv : InlineInv r t) (hq : r.qu
     t2.main.cr + 1 = viewTop r t + (frameLines (write r b)).length ∧
     t2.main.cc = 0 ∧ t2.main.pw = false ∧
     (∀ i l, (frameLines (write r b))[i]? = some l →
-      t2.main.row t.w (viewTop r t + i) = padLine t.w l) ∧
+      t2.main.row t.w (viewTop r t + i) = padLine t.w (Ansi.visible l)) ∧
     (∀ ρ, t2.main.cr < ρ → ρ < t2.main.top + t.h → t2.main.row t.w ρ = List.replicate t.w 32) ∧
     (∀ ρ, ρ < viewTop r t → ∀ c, t2.main.cells ρ c = t.main.cells ρ c) ∧
     r2.lastRender = (write r b).buf := by
@@ -231,7 +232,7 @@ theorem C07_quit_after_history (r : RState) (t : Term) (hinv : InlineInv r t) (h
     (ht' : t' = applyOps t1 (stop (write r1 s)).2) :
     frameLines (write r1 s) = frameLines (write r s) ∧
     (∀ i l, i + 1 < (frameLines (write r s)).length → (frameLines (write r s))[i]? = some l →
-      t'.main.row t.w (viewTop r t + i) = padLine t.w l) ∧
+      t'.main.row t.w (viewTop r t + i) = padLine t.w (Ansi.visible l)) ∧
     t'.main.cr + 1 = viewTop r t + (frameLines (write r s)).length ∧
     t'.main.cc = 0 ∧ t'.main.pw = false ∧
     t'.main.row t.w t'.main.cr = List.replicate t.w 32 ∧
